@@ -209,7 +209,7 @@ theorem invA_tstep {b0 : Nat → Bool} {c0 : Int} {sh : Shared} {ths : List PC} 
           · exact absurd ((and_mask_ne_mask b id).mpr hc) hbit
           · rfl
         exact invA_quiet hI ht (hq0 rfl rfl) _ _ rfl rfl (hq0 rfl rfl) ⟨hset, hlt⟩
-    · have e : tstep sh (.c8 id) = (sh, .idle, some .crashIndex) := by
+    · have e : tstep sh (.c8 id) = (sh, .idle, some (.cleared false)) := by
         simp only [tstep, hlt, ↓reduceIte]
       rw [e]
       exact invA_quiet hI ht (hq0 rfl rfl) _ _ rfl rfl (hq0 rfl rfl) trivial
